@@ -192,43 +192,43 @@ PENDING = {}
 
 # what rounds 3-6 of independent seeded changes added to each check (appended to the technique text)
 ADDED = {
-    "C01": "histories with refused set_params calls; an untouched witness instance; None / NumPy-scalar values",
-    "C02": "20 invalid-input classes incl. unconvertible weights; k-th-fit faults of inner estimators below the root",
+    "C01": "histories with refused set_params calls; an untouched witness instance; None / NumPy-scalar values; refused calls mid-history, two set_params in a row, clones stored by identity, both prefixed keys of one name in one call, keywords named like the store's own methods",
+    "C02": "20 invalid-input classes incl. unconvertible weights; k-th-fit faults of inner estimators below the root; KeyboardInterrupt as a fault, weight classes with a zero-weight blob, weighted score leaves the weights alone, parameters unchanged by refused calls, verbose='tqdm'",
     "C03": "histories with a refused fit, DataFrames with other column names, other values of the same shape, a "
            "second instance fitted in between, reflected accessors called between fits, a fit under the poisoned "
-           "allocator",
+           "allocator; weighted histories, an interrupted fit, two fits in two threads under yield injection, a refitted shallow copy, a PYTHONHASHSEED probe in two processes, another clusterer kind between fits",
     "C04": "accessor purity, float labels, a buffer refilled in place, a float32 / Fortran batch served in between, "
-           "outputs under the poisoned allocator",
+           "outputs under the poisoned allocator; rows on the split thresholds and half a float32 ulp away, earlier single-row results kept, a second life with pickled copies, models whose local estimators refuse single rows, upstream tests as a row-wise workload",
     "C05": "scale classes with scale-relative slack (LP optimum taken at unit scale), copy_X=False, strict weighted "
-           "normalisation (integer weights = repeated rows for score), layouts, set_params / NumPy-scalar configuration",
+           "normalisation (integer weights = repeated rows for score), layouts, set_params / NumPy-scalar configuration; boolean features with fractional weights, two fits of the same size in two threads",
     "C06": "refused fit under the other norm between two calls, scale classes, fit_transform, layouts, "
-           "set_params / NumPy-scalar configuration",
-    "C07": "an earlier life with strategy='weights', layouts, integer data, set_params / NumPy-scalar configuration",
+           "set_params / NumPy-scalar configuration; callable / ndarray init (a view included), RandomState objects and the global generator as random_state, an empty cluster away from the origin",
+    "C07": "an earlier life with strategy='weights', layouts, integer data, set_params / NumPy-scalar configuration; batches above 256 rows gathered round one centre, max_iter 1 and 3, NumPy booleans",
     "C08": "Series targets / weights with permuted index, refit refused by the binner, local models keep their own "
-           "rows (reference + copy), layouts, set_params configuration",
+           "rows (reference + copy), layouts, set_params configuration; wide discretizers (more than 53 one-hot columns), a local classifier whose predict is not the arg max of its probabilities",
     "C09": "tiny / huge targets with relative slack, rank-deficient designs, dirtying init with another order and "
-           "other weights, training dtypes and layouts",
+           "other weights, training dtypes and layouts; best-first growth, epoch-second magnitudes, DataFrame / list batches, weights after no weights on one criterion object, a refitted shallow copy",
     "C10": "exact predict rule on the model's own probabilities (ties included), float32 features, frames with a "
-           "permuted index at fit and predict time, set_params / NumPy-scalar configuration",
+           "permuted index at fit and predict time, set_params / NumPy-scalar configuration; labels of unequal length and booleans, three refused fits then the same answers",
     "C11": "poisoned allocator on every numeric comparison, all-zero columns, 4097 / 5000-row matrices, refused "
-           "calls and refused fits inside histories, a buffer refilled in place",
+           "calls and refused fits inside histories, a buffer refilled in place; hyper-parameters compared around refused fits, earlier single-row results kept",
     "C12": "integer bins of every width and signedness, lists and views, the helpers re-checked after a refit of the "
-           "same estimator, trees trained with missing values, a buffer refilled in place",
+           "same estimator, trees trained with missing values, a buffer refilled in place; NaN and +-max(float32) query points, infinite and out-of-float32 edges, both directions in one process",
     "C13": "refit refused by the inner classifier, one transformer object shared by two models, label matrices in "
-           "C / Fortran / transposed layouts and strided label vectors",
-    "C14": "the same vectorizer objects reconfigured with set_params and refitted three times",
+           "C / Fortran / transposed layouts and strided label vectors; targets of 1e-9 .. 1e-20 for log1p / expm1, labels of unequal length",
+    "C14": "the same vectorizer objects reconfigured with set_params and refitted three times; stop lists with multi-word entries, the stop list object mutated in place between fits",
     "C15": "call sequences with refused calls and refits, wrapped estimator refitted in place, (n, 1) targets, "
-           "wrapped estimators trained on DataFrames, original compared even when fit raises",
+           "wrapped estimators trained on DataFrames, original compared even when fit raises; sparse outputs",
     "C16": "deep copy of an altered pipeline fitted again, a refused second alteration, refused inputs given to the "
-           "altered pipeline and to an untouched twin",
+           "altered pipeline and to an untouched twin; column selections as arrays / Index / tuples, negative positions, wide tables, a refused predict followed by the other methods, pipelines whose alteration is refused midway",
     "C17": "pandas and CSR containers, refit asked about the same batch objects, a buffer refilled in place, members "
-           "keep their own rows, base regressors that cannot take weights, layouts, set_params configuration",
+           "keep their own rows, base regressors that cannot take weights, layouts, set_params configuration; a base regressor answering NaN outside its ids",
     "C18": "object / float32 columns, permuted index, warm_start ensembles vs the same without, a buffer refilled in "
-           "place",
+           "place; models carrying a generator object, a stateful standardiser pair (order of tr / inv_tr)",
     "C19": "three spellings of a missing cell, numeric-dtype categories, a column without category at fit, "
-           "narrow-then-full / refused-then-full / clone-of-fitted histories, transform after refused calls",
+           "narrow-then-full / refused-then-full / clone-of-fitted histories, transform after refused calls; int64 identifiers above 2**53, unseen falsy values, NumPy boolean flags",
     "C20": "memory layouts of series / exogenous block / weights, one model object re-parametrised between calls, "
-           "the empty-table boundary and every call under the poisoned allocator",
+           "the empty-table boundary and every call under the poisoned allocator; series and exogenous blocks with missing observations, ts_mape argument purity",
 }
 
 
